@@ -202,14 +202,14 @@ Concat(s) == IF s = <<>> THEN <<>> ELSE Head(s) \o Concat(Tail(s))
 Shapes == IF Thorough THEN {<<1, 2>>, <<2, 2>>, <<3, 2>>, <<1, 3>>, <<2, 3>>, <<3, 3>>} ELSE {<<1, 2>>, <<3, 2>>, <<2, 3>>}
 
 \* single likelihood: noise form i, prior form j; mean kind and model kind vary with the indices so that every
-\* combination occurs; quick = every noise form against two priors and every prior form against two noises
+\* combination occurs; quick = every noise form against two priors and every prior form against one noise form
 Rto1 == { [kind |-> "rto", n |-> sh[2], nl |-> 1, m1 |-> sh[1], m2 |-> 0, av |-> av, i1 |-> i, i2 |-> 0, j |-> j,
            mk |-> IF (i + j) % 2 = 0 THEN "vec" ELSE "scalar",
            mdl |-> IF (i + (j \div 2) + sh[1]) % 2 = 0 THEN "matrix" ELSE "func"] :
             sh \in Shapes, av \in (IF Thorough THEN {1, 2} ELSE {1}), i \in 1..NGF, j \in 1..NPF }
 SelRto1(r) == /\ (GForm(r.i1).kind = "full" => r.m1 >= 2)
               /\ (PForm(r.j).kind = "gmrf" /\ PForm(r.j).order = 2 => r.n >= 2)
-              /\ (Thorough \/ r.j \in {4, 13, 17} \/ r.i1 \in {1, 16})
+              /\ (Thorough \/ r.j \in {13, 17} \/ r.i1 \in {16} \/ (r.i1 = 1 /\ r.m1 = 1))
               /\ (Thorough /\ r.av = 2 => (r.i1 + r.j) % 3 = 0)
 \* two likelihoods (MultipleLikelihoodPosterior): different sizes, operators, noise forms
 Rto2 == { [kind |-> "rto", n |-> n, nl |-> 2, m1 |-> ms[1], m2 |-> ms[2], av |-> 1, i1 |-> i, i2 |-> ((i * 5 + j) % NGF) + 1, j |-> j,
@@ -394,7 +394,9 @@ MapConfigs ==
 SelMap(r) == /\ (GForm(r.i1).kind = "full" => r.m >= 2)
              /\ (r.geo = "step" => r.na = 3)
              /\ (PForm(r.j).kind = "gmrf" => r.geo \in {"default", "cont"})
-             /\ (IF Thorough THEN (r.av = 2 => (r.i1 + r.j) % 4 = 0) /\ (r.geo \notin {"default", "step"} => (r.i1 + r.j) % 2 = 0)
+             /\ (IF Thorough THEN /\ (r.av = 2 => (r.i1 + r.j) % 4 = 0 /\ r.geo = "default")
+                                   /\ (r.geo \in {"cont", "disc"} => (r.i1 + r.j) % 4 = 1)
+                                   /\ (r.geo = "scale" => (r.i1 + r.j) % 2 = 0)
                  ELSE /\ (r.j \in {1, 5, 13, 17} \/ r.i1 \in {1, 5})
                       /\ (r.geo \in {"cont", "disc"} => r.i1 = 5 /\ r.j \in {1, 13})
                       /\ (r.geo \in {"step", "scale"} => r.i1 \in {1, 5, 13} /\ r.j \in {1, 5, 13})
